@@ -130,6 +130,36 @@ def corrupt(sig_hex, kind):
     raise AssertionError(kind)
 
 
+# valid signatures whose DER encoding is shorter than the usual 70..72 bytes: (name, bytes of r,
+# bytes of s).  r of 21 bytes is x((n+1)/2 * G); r of 31 bytes is found by grinding nonces; s is
+# chosen freely and the signing key solved for (d = (s k - z) / r), so each has its own key.
+SHORT_KINDS = [("r21-s32", 21, 32), ("r32-s20", 32, 20), ("r21-s20", 21, 20), ("r31-s32", 31, 32),
+               ("r31-s27-len64", 31, 27), ("r31-s28-len65", 31, 28), ("r32-s31", 32, 31),
+               ("r21-s1", 21, 1)]
+
+
+def make_short_signature(h32, it, rlen, slen, rng):
+    """(DER signature hex, private key bytes) valid for the authorization digest of (h32, it)"""
+    N = ecsig.N
+    z = int.from_bytes(ref_digest(h32, it), "big")
+    while True:
+        k = (N + 1) // 2 if rlen == 21 else int.from_bytes(rng.bytes(32), "big") % N
+        if k == 0:
+            continue
+        r = int.from_bytes(ecsig.pub_of_libsecp(k.to_bytes(32, "big"))[1:33], "big") % N
+        if r and len(ecsig._enc_int(r)) - 2 == rlen + (1 if rlen == 32 and r >> 255 else 0) and \
+                (rlen != 32 or r >> 248):
+            break
+    while True:
+        sv = int.from_bytes(rng.bytes(slen), "big")
+        sv |= 1 << (8 * slen - 2)            # exact length, top bit clear (no padding byte)
+        sv &= (1 << (8 * slen - 1)) - 1
+        if 0 < sv <= N // 2:
+            d = (sv * k - z) * pow(r, -1, N) % N
+            if d:
+                return ecsig.der_encode(r, sv).hex(), d.to_bytes(32, "big")
+
+
 def hash_menu(rng):
     hs = [rng.bytes(32) for _ in range(4)]
     m = [("rnd%d" % i, h.hex()) for i, h in enumerate(hs)]
@@ -186,7 +216,9 @@ class C17(Check):
             "product of an 18-entry hash menu and a 30-entry iteration menu through the "
             "constructor, through authorization files and (strings) through signapp's argv; all "
             "vectors of 0..4 (quick) / 0..6 full + 7..10 with <=2 defects (thorough) signatures over "
-            "{valid, truncated, wrong tag, trailing byte} plus single extra defects, each through "
+            "{valid, truncated, wrong tag, trailing byte} plus single extra defects, plus valid "
+            "signatures with short r / s (DER length 28..69, each under its own key; also the tool's "
+            "own short signature under a ground randomness stream and the Ethereum app's), each through "
             "constructor, add_signature, file load and save/load; signapp message (output path absent / holding an "
             "older authorization with 0 or 2 signatures / garbage), key, manual, eth "
             "through main(); authorize_signer through adm_ledger.main() against threshold devices "
@@ -227,6 +259,22 @@ class C17(Check):
         self.keys = [ecsig.seeded_scalar(rng) for _ in range(self.nkeys + 2)]
         self.pubs = [ecsig.pub_of_libsecp(k) for k in self.keys]
         self.maxsig = 10 if self.thorough else 4
+        # short-but-valid signatures for (hashes[0], iteration 77), each under its own key
+        self.short = {}
+        self.short_sig = {}
+        r3 = Rng("c17-short")
+        for name, rl, sl in SHORT_KINDS:
+            sig, priv = make_short_signature(self.hashes[0], 77, rl, sl, r3)
+            pub = ecsig.pub_of_libsecp(priv)
+            raw = bytes.fromhex(sig)
+            if not (ecsig.is_strict_der(raw) and ecsig.verify_libsecp(pub, ref_digest(self.hashes[0], 77), raw)
+                    and ecsig.verify_ecdsa_pkg(pub, ref_digest(self.hashes[0], 77), raw)):
+                raise HarnessError("constructed short signature %s does not verify" % name)
+            self.keys.append(priv)
+            self.pubs.append(pub)
+            self.short[name] = len(self.keys) - 1
+            self.short_sig[len(self.keys) - 1] = sig
+
         # calibration of the reference on the example of docs/signer-authorization.md
         h = bytes.fromhex("e1baa18564fc0c2c70ac4019609c6db643adbf12711c8b319f838e6a74b0da2c")
         doc = ("\x19Ethereum Signed Message:\n95RSK_powHSM_signer_e1baa18564fc0c2c70ac4019609c6db6"
@@ -243,6 +291,25 @@ class C17(Check):
                          ihex.write(self.apps[1], policy=16)]
         self.app_hash = [ihex.reference_hash(a) for a in self.apps]
         self._sigcache = {}
+        # a randomness stream under which the ecdsa package itself produces a short signature
+        # (what `signapp key` will write), and an iteration for which the Ethereum app does
+        import ecdsa
+        self.grind = None
+        sk = ecdsa.SigningKey.from_string(self.keys[0], curve=ecdsa.SECP256k1)
+        for i in range(4000):
+            label = "c17-grind-%d" % i
+            sg = sk.sign_digest(ref_digest(self.app_hash[0], 5), entropy=opstub.ByteStream(label),
+                                sigencode=ecdsa.util.sigencode_der)
+            if len(sg) <= 69:
+                self.grind = label
+                break
+        # ... and an iteration for which the (deterministic) Ethereum app model signs short
+        self.eth_short_iter = None
+        ethk = EthApp(seed=b"c17eth").key(path_binary("m/44'/60'/0'/0/0", "big", with_len=False))[0]
+        for it in range(1, 3000):
+            if len(ecsig.sign_libsecp(ethk, ref_digest(self.app_hash[0], it))) <= 69:
+                self.eth_short_iter = it
+                break
 
     def bounds(self):
         return {"iterations": "0..65535 all", "signatures": "0..%d" % self.maxsig,
@@ -251,7 +318,7 @@ class C17(Check):
 
     def alphabets(self):
         return {"hash": [n for n, _ in self.hmenu], "iteration": [n for n, _ in ITER_MENU],
-                "signature": ["valid"] + MALFORMED + EXTRA_MALFORMED,
+                "signature": ["valid"] + [k for k, _, _ in SHORT_KINDS] + MALFORMED + EXTRA_MALFORMED,
                 "faults": ["sw6a01", "sw6a03", "sw6a04", "sw6985", "timeout", "read", "write"]}
 
     def cases(self):
@@ -273,6 +340,8 @@ class C17(Check):
             for n in range(7, 11):
                 cs.append({"kind": "sigvec-sparse", "n": n})
         cs.append({"kind": "sig-extra"})
+        cs.append({"kind": "sig-short"})
+        cs.append({"kind": "dev-short"})
         cs.append({"kind": "filedefects"})
         for n in range(0, self.maxsig + 1):
             cs.append({"kind": "dev-threshold", "n": n})
@@ -296,6 +365,8 @@ class C17(Check):
                             observed, expected, clause))
 
     def sig_by(self, key_idx, hash32, n):
+        if key_idx in self.short_sig and bytes(hash32) == self.hashes[0] and n == 77:
+            return self.short_sig[key_idx]
         k = (key_idx, bytes(hash32), n)
         if k not in self._sigcache:
             self._sigcache[k] = ecsig.sign_libsecp(self.keys[key_idx], ref_digest(hash32, n)).hex()
@@ -546,10 +617,11 @@ class C17(Check):
     # route sigs: vectors of signatures through constructor / add_signature / file
     # =========================================================================
     def x_sigs(self, a, stats, vs):
-        """args: h (index), it, kinds [..]"""
+        """args: h (index), it, kinds [..], keys [key index per signature] (default 0, 1, 2...)"""
         SA = self.SA
         h, it, kinds = self.hashes[a.h], a.it, a.kinds
-        sigs = [corrupt(self.sig_by(i, h, it), kd) for i, kd in enumerate(kinds)]
+        keyidx = a["keys"] if a.get("keys") else list(range(len(kinds)))
+        sigs = [corrupt(self.sig_by(keyidx[i], h, it), kd) for i, kd in enumerate(kinds)]
         bad = [i for i, kd in enumerate(kinds) if kd != "valid"]
         sv = SA.SignerVersion(h.hex(), it)
         args = dict(a)
@@ -644,6 +716,39 @@ class C17(Check):
                                          skind="n%d:number" % n), stats, vs)
                     else:
                         self.x_sigs(Args(h=0, it=9, kinds=kinds), stats, vs)
+
+    def case_sig_short(self, case, stats, vs):
+        """valid signatures with short r and / or s: alone, at each position among ordinary ones,
+        all together, and next to a malformed one"""
+        names = [k for k, _, _ in SHORT_KINDS]
+        for kd in names:
+            self.x_sigs(Args(h=0, it=77, kinds=["valid"], keys=[self.short[kd]], short=kd), stats, vs)
+            for pos in range(3):
+                keys = [0, 1, 2]
+                keys[pos] = self.short[kd]
+                self.x_sigs(Args(h=0, it=77, kinds=["valid"] * 3, keys=keys, short=kd), stats, vs)
+                for bad in MALFORMED:
+                    kinds = ["valid"] * 3
+                    kinds[(pos + 1) % 3] = bad
+                    self.x_sigs(Args(h=0, it=77, kinds=kinds, keys=keys, short=kd), stats, vs)
+        self.x_sigs(Args(h=0, it=77, kinds=["valid"] * len(names), keys=[self.short[k] for k in names],
+                         short="all"), stats, vs)
+
+    def case_dev_short(self, case, stats, vs):
+        """authorization files holding short signatures reach the device unchanged"""
+        names = [k for k, _, _ in SHORT_KINDS]
+        idx = [self.short[k] for k in names]
+        for i in range(len(idx)):
+            trio = [idx[i], idx[(i + 1) % len(idx)], idx[(i + 3) % len(idx)]]
+            doc = self.auth_doc(0, 77, trio)
+            for k in (1, 2, 3, 4):
+                self.x_dev(Args(doc=doc, policy={"kind": "threshold", "k": k}), stats, vs)
+            self.x_dev(Args(doc=doc, policy={"kind": "genuine", "auth": trio}), stats, vs)
+            self.x_dev(Args(doc=self.auth_doc(0, 77, [0, idx[i], 1]),
+                            policy={"kind": "genuine", "auth": [0, 1, idx[i]]}), stats, vs)
+        doc = self.auth_doc(0, 77, idx)
+        self.x_dev(Args(doc=doc, policy={"kind": "threshold", "k": len(idx)}), stats, vs)
+        self.x_dev(Args(doc=doc, policy={"kind": "genuine", "auth": idx}), stats, vs)
 
     def case_filedefects(self, case, stats, vs):
         h, it = self.hashes[1], 300
@@ -1076,7 +1181,7 @@ class C17(Check):
             elif j % 2 == 0:
                 # later calls: app/iteration given again are ignored in favour of the file
                 argv += ["-a", self.td.write("other.hex", self.app_text[1 - a.app]), "-i", "9"]
-            r = self.run_signapp(argv, stream="c17-k%d-%d" % (ki, j), verbose=bool(a.verbose))
+            r = self.run_signapp(argv, stream=a.stream or "c17-k%d-%d" % (ki, j), verbose=bool(a.verbose))
             try:
                 d = json.loads(self.td.read("auth.json") or "null")
             except Exception:   # noqa
@@ -1122,6 +1227,9 @@ class C17(Check):
             for it in its:
                 self.x_signapp_key(Args(app=app, iter=it, keys=list(range(m)), verbose=it == "65535"),
                                    stats, vs)
+        if m == 1 and self.grind:
+            # the randomness under which the tool's own signature comes out short
+            self.x_signapp_key(Args(app=0, iter="5", keys=[0], stream=self.grind), stats, vs)
         if m == 3:
             self.x_signapp_key(Args(app=0, iter="77", keys=[2, 0, 1]), stats, vs)
             self.x_signapp_key(Args(app=0, iter="77", keys=[4, 4, 5]), stats, vs)
@@ -1193,14 +1301,19 @@ class C17(Check):
         stats.evaluations += 1
         h, it = self.hashes[2], 1000
         doc = self.auth_doc(2, it, list(range(a.nsig)))
+        if a.short:
+            # a valid signature with short r / s, into a file that may already hold short ones
+            h, it = self.hashes[0], 77
+            doc = self.auth_doc(0, it, [self.short[k] for k in (a.held or [])] + list(range(a.nsig)))
         outp = self.td.write("auth.json", json.dumps(doc, indent=2) + "\n")
         before = self.td.read("auth.json")
-        sig = corrupt(self.sig_by(a.nsig, h, it), a.skind) if a.skind != "absent" else None
+        sig = corrupt(self.sig_by(self.short[a.short] if a.short else a.nsig, h, it), a.skind) \
+            if a.skind != "absent" else None
         argv = ["manual", "-o", outp] + (["-g", sig] if a.skind != "absent" else [])
         r = self.run_signapp(argv, verbose=bool(a.verbose))
         after = self.td.read("auth.json")
         args = dict(a)
-        stats.observe(("signapp-manual", a.nsig, a.skind, r.code, after == before))
+        stats.observe(("signapp-manual", a.nsig, a.skind, a.short, r.code, after == before))
         if r.exc:
             self.viol(vs, "tool-crash", "signapp-manual:%s" % a.skind, "signapp_manual", args,
                       {"exc": r.exc}, {"exit": "0 or 1"})
@@ -1225,6 +1338,9 @@ class C17(Check):
         for nsig in range(0, 4):
             for kd in ["valid"] + MALFORMED + ["empty", "nonhex", "inttag", "seqlen", "absent"]:
                 self.x_signapp_manual(Args(nsig=nsig, skind=kd, verbose=nsig % 2 == 1), stats, vs)
+        names = [k for k, _, _ in SHORT_KINDS]
+        for i, kd in enumerate(names):
+            self.x_signapp_manual(Args(nsig=i % 3, skind="valid", short=kd, held=names[:i % 4]), stats, vs)
         # manual on an absent / malformed file
         for name, content in (("absent", None), ("malformed", "{}")):
             stats.evaluations += 1
@@ -1333,6 +1449,10 @@ class C17(Check):
                     for path in (None, "m/44'/60'/0'/0/1", "m/44'/137'/0'/0/0"):
                         self.x_signapp_eth(Args(app=app, iter=it, path=path, nsig=nsig, mode="ok",
                                                 verbose=nsig == 1), stats, vs)
+        if self.eth_short_iter:
+            for nsig in (0, 2):
+                self.x_signapp_eth(Args(app=0, iter=str(self.eth_short_iter), path=None, nsig=nsig,
+                                        mode="ok"), stats, vs)
         for mode in ("pubkey", "wrongmsg", "wrongkey", "sw-pub", "sw-sign", "wrongapp", "locked"):
             for nsig in (0, 2):
                 for path in (None, "m/44'/60'/0'/0/1"):
